@@ -617,7 +617,7 @@ class Emitter:
         if isinstance(r, TPtr):
             c = {'eq': '==', 'ne': '!=', 'ult': '<', 'ule': '<=', 'ugt': '>', 'uge': '>='}[pred]
             if pred in ('eq', 'ne'): return '((uint8_t)((%s) %s (%s)))' % (a, c, b)
-            return '((uint8_t)((uintptr_t)(%s) %s (uintptr_t)(%s)))' % (a, c, b)
+            return '((uint8_t)VERIF_PTRCMP(%s, %s, %s))' % (a, c, b)
         n = r.n
         if pred in ('eq', 'ne', 'ult', 'ule', 'ugt', 'uge'):
             c = {'eq': '==', 'ne': '!=', 'ult': '<', 'ule': '<=', 'ugt': '>', 'uge': '>='}[pred]
@@ -1266,7 +1266,7 @@ class FuncTranslator:
             if kind == 'memset':
                 if not (args[1].kind == 'int' and args[1].val == 0): return False
                 out.append('{ %s* d_ = (%s*)%s; uint64_t n_ = (%s) / %d; for (uint64_t i_ = 0; i_ < n_; i_++) d_[i_] = (%s)%s; }' % (ct, ct, V_(d), V_(n), sz, ct, '{0}' if isinstance(r, TStruct) else '0')); return True
-            out.append('{ %s* d_ = (%s*)%s; %s* s_ = (%s*)%s; uint64_t n_ = (%s) / %d; if ((uintptr_t)d_ <= (uintptr_t)s_) { for (uint64_t i_ = 0; i_ < n_; i_++) d_[i_] = s_[i_]; } else { for (uint64_t i_ = n_; i_ > 0; i_--) d_[i_-1] = s_[i_-1]; } }' % (ct, ct, V_(d), ct, ct, V_(args[1]), V_(n), sz))
+            out.append('{ %s* d_ = (%s*)%s; %s* s_ = (%s*)%s; uint64_t n_ = (%s) / %d; if (VERIF_PTRCMP(d_, <=, s_)) { for (uint64_t i_ = 0; i_ < n_; i_++) d_[i_] = s_[i_]; } else { for (uint64_t i_ = n_; i_ > 0; i_--) d_[i_-1] = s_[i_-1]; } }' % (ct, ct, V_(d), ct, ct, V_(args[1]), V_(n), sz))
             return True
         N = n.val
         if N == 0: return True
@@ -1382,6 +1382,13 @@ class FuncTranslator:
             if k[0] == 'u': cmp = '(%s) %s (%s)' % (a, '<' if k == 'umin' else '>', b_)
             else: cmp = '%s %s %s' % (em.sx(n, a), '<' if k == 'smin' else '>', em.sx(n, b_))
             out.append('%s = (%s) ? (%s) : (%s);' % (R, cmp, a, b_)); return True
+        m = re.match(r'(uadd|usub)\.sat\.i(\d+)', base)
+        if m and int(m.group(2)) <= 64:
+            # unsigned saturating add/sub (LLVM emits them for clamped trip counts): computed in 128 bits
+            n = int(m.group(2)); k = m.group(1); a = V_(args[0]); b_ = V_(args[1])
+            if k == 'usub': out.append('%s = ((%s) > (%s)) ? %s : 0;' % (R, a, b_, em.mask(n, '(%s)((%s) - (%s))' % (em.int_ctype(n), a, b_))))
+            else: out.append('{ unsigned __int128 w_ = (unsigned __int128)(%s) + (unsigned __int128)(%s); unsigned __int128 m_ = (((unsigned __int128)1) << %d) - 1; %s = (%s)(w_ > m_ ? m_ : w_); }' % (a, b_, n, R, em.int_ctype(n)))
+            return True
         m = re.match(r'abs\.i(\d+)', base)
         if m:
             n = int(m.group(1)); a = V_(args[0])
@@ -1416,6 +1423,12 @@ void verif_native_assume(int c); void verif_native_assert(int c, const char* m);
 static inline int64_t SDIV64(int64_t a, int64_t b) { return a / b; }
 /* CBMC does not constant-fold NULL - NULL; equality of pointers does fold */
 #define VERIF_PTRDIFF(a, b) (((uint8_t*)(a) == (uint8_t*)(b)) ? (int64_t)0 : (int64_t)((uint8_t*)(a) - (uint8_t*)(b)))
+/* relational pointer comparison: inside one object the address order is the offset order (lets symex decide `pc < end` for concrete pointers) */
+#ifdef __CPROVER__
+#define VERIF_PTRCMP(a, op, b) (__CPROVER_same_object((a), (b)) ? (__CPROVER_POINTER_OFFSET(a) op __CPROVER_POINTER_OFFSET(b)) : ((uintptr_t)(a) op (uintptr_t)(b)))
+#else
+#define VERIF_PTRCMP(a, op, b) ((uintptr_t)(a) op (uintptr_t)(b))
+#endif
 static inline int64_t SREM64(int64_t a, int64_t b) { return a % b; }
 static inline __int128 SDIV128(__int128 a, __int128 b) { return a / b; }
 static inline __int128 SREM128(__int128 a, __int128 b) { return a % b; }
